@@ -15,12 +15,19 @@
 (*                     record also fixes the committee size and the scalar h of the slot        *)
 (*                     signature the signer will give for (validator, slot)                     *)
 (*   DropDuty(d)       the oracle loses a duty (a re-org; only after Vouch has acted on it)     *)
+(*   MoveDuty(d,e)     a re-org in which the validator KEEPS ITS SLOT (and so its slot          *)
+(*                     signature) but lands in another committee and / or in a committee of     *)
+(*                     another length                                                           *)
+(*   ResizePair(s,c,z) a re-org after which committee c of slot s has z members: every validator*)
+(*                     of the pair keeps slot and committee index, the length changes           *)
 (*   Advance(t)        the clock                                                                *)
 (* Vouch:                                                                                       *)
 (*   SubscribeWith(I,S) a synchronous Subscribe for the epoch (epoch preparation): I is the     *)
 (*                     subscription info handed back to the controller and STORED by it, S the  *)
 (*                     subscriptions submitted to the node                                      *)
 (*   SubscribeFail     the same call failing (beacon node error): the store is not touched      *)
+(*   ...WithF(I,S,F)   the same calls with the slot-selection signer refusing the slots F: the  *)
+(*                     info covers the duties of the other slots                                *)
 (*   Refresh           a head event with a changed duty dependent root that concerns the epoch  *)
 (*                     (refreshAttesterDutiesForEpoch): the attestation jobs are cancelled and  *)
 (*                     re-made, and a re-subscription is started ASYNCHRONOUSLY; the store keeps*)
@@ -28,11 +35,30 @@
 (*   ResubOk(I,S)      a re-subscription in flight completes: it fetches the duties as they are *)
 (*                     now, the store is REPLACED by the new info                               *)
 (*   ResubFail         a re-subscription in flight fails: the store KEEPS the previous info     *)
+(*   ResubFetch(hs)    a re-subscription in flight fetches the duties (as they are now) and     *)
+(*                     enters the attestation aggregator: its selection call for slot hs is HELD*)
+(*                     at the slot-selection signer (the calls of its other slots run on) while *)
+(*                     anything else happens: other subscriptions on the same subscriber and    *)
+(*                     aggregator instances run to completion, the oracle changes, jobs run     *)
+(*   HeldFinish(c,I,S) the held call returns: the info, calculated from the duties THAT CALL    *)
+(*                     fetched, replaces the store                                              *)
 (*   Housekeep         a head event two or more epochs later: the epoch's info may be dropped   *)
 (*   AttestJob(s,C,ok) the attestation job of slot s, at ANY point of that history: the attester*)
 (*                     made attestations for the committees C (ok) or failed (~ok); aggregation *)
 (*                     jobs are set up from the info IN FORCE = the most recently stored        *)
 (*                     successful subscription result (never absent once there was one)         *)
+(*                                                                                              *)
+(* THE INSTANCES AND THEIR HISTORY.  Controller, beacon committee subscriber and attestation    *)
+(* aggregator are single long-lived instances; a behaviour is a history of (re-)subscription    *)
+(* calls on them, sequential and overlapping (production starts every subscription on its own   *)
+(* goroutine: epoch preparation, the two epochs at start-up, one per re-org head event; inside  *)
+(* one call the selection calls of the slots run in parallel).  The ONLY state the property     *)
+(* makes persistent is the controller's store (info / infoD / submitted / subAt): it is what an *)
+(* attestation job reads.  The outcome of every call - the flags submitted, stored and acted on *)
+(* - is a function of that call's own inputs (the duties it fetched with their committee index  *)
+(* and LENGTH, the slot signatures, the target, the clock) and of nothing an earlier or         *)
+(* overlapping call left behind: SubscriptionHistoryIndependent.  Designs that keep more on the *)
+(* aggregator instance are in SubscriberMemo.tla (controls that TLC must reject).               *)
 (*                                                                                              *)
 (* h is the little-endian uint64 of the first eight bytes of SHA-256 of the slot signature,     *)
 (* reduced modulo HMod (hashing stays in Go; every modulus that occurs divides HMod, so         *)
@@ -52,7 +78,9 @@ CONSTANTS Validators,     \* validator indices
           SPE,            \* slots per epoch
           Ep,             \* the epoch of the duties (all of SlotSpace lies in it)
           MaxRefresh,     \* bound on the number of refreshes (re-org head events) for the epoch
-          MaxChanges      \* bound on the oracle changes after Vouch has acted on the oracle
+          MaxChanges,     \* bound on the oracle changes after Vouch has acted on the oracle
+          MaxHeld,        \* bound on the number of re-subscriptions held inside the aggregator (overlap)
+          SignerMayFail   \* the slot-selection signer may refuse the selection call of a slot
 
 VARIABLES now,        \* current slot
           target,     \* TARGET_AGGREGATORS_PER_COMMITTEE
@@ -64,14 +92,16 @@ VARIABLES now,        \* current slot
           submitted,  \* subscriptions handed to the beacon node by the last successful Subscribe
           subAt,      \* slot at which the last successful Subscribe ran (NoSub if none in force)
           nsub,       \* number of synchronous Subscribe calls so far
-          inflight,   \* re-subscriptions started by a refresh and not yet finished
+          inflight,   \* re-subscriptions started by a refresh that have not yet fetched the duties
+          held,       \* re-subscriptions inside the aggregator, held at the signer: set of [id, snap, hs]
+          nheld,      \* number of calls held so far
           nref,       \* number of refreshes so far
           nchg,       \* number of oracle changes after started
           jobs,       \* aggregation jobs ever set up: set of [slot, committee, v, at, exact]
           attests,    \* successful attestations: set of [slot, committee, expect]
           done        \* slots whose attestation job has run (a job runs once, property C02/C03)
 
-vars == <<now, target, geo, duties, started, info, infoD, submitted, subAt, nsub, inflight, nref, nchg,
+vars == <<now, target, geo, duties, started, info, infoD, submitted, subAt, nsub, inflight, held, nheld, nref, nchg,
           jobs, attests, done>>
 
 NoSub == -1
@@ -95,14 +125,21 @@ Entries(D, t) == {Entry(d, t) : d \in D}
 
 SamePair(a, b) == a.slot = b.slot /\ a.committee = b.committee
 
-\* one entry per slot/committee pair, each the entry of one of the pair's validators, an
-\* aggregator whenever the pair has one; every pair with a duty at slot t or later is present
-\* (the info of slot t is what the attestation job of slot t itself looks at)
-ValidInfo(I, D, t, tgt) ==
-    /\ I \subseteq Entries(D, tgt)
+\* A subscription info calculated from the duties D at slot t, A[d] being what the attestation
+\* aggregator answered for duty d (is d's validator a selected aggregator?): one entry per
+\* slot/committee pair, each the entry of one of the pair's validators, an aggregating one whenever
+\* the pair has one; every pair with a duty at slot t or later is present (the info of slot t is
+\* what the attestation job of slot t itself looks at)
+CalcInfo(I, D, t, A) ==
+    /\ I \subseteq {[slot |-> d.slot, committee |-> d.committee, v |-> d.v, agg |-> A[d]] : d \in D}
     /\ \A a, b \in I : SamePair(a, b) => a = b
     /\ \A d \in D : d.slot >= t => \E e \in I : SamePair(e, d)
-    /\ \A e \in I : (\E d \in DutiesAt(D, e.slot, e.committee) : DutyAggregates(d, tgt)) => e.agg
+    /\ \A e \in I : (\E d \in DutiesAt(D, e.slot, e.committee) : A[d]) => e.agg
+
+\* the answers the property demands: the rule on the duty's OWN committee length, nothing else
+Exact(D, tgt) == [d \in D |-> DutyAggregates(d, tgt)]
+
+ValidInfo(I, D, t, tgt) == CalcInfo(I, D, t, Exact(D, tgt))
 
 FutureOf(I, t) == {e \in I : e.slot > t}
 
@@ -112,8 +149,11 @@ HConsistent(d, D) == \A x \in D : (x.v = d.v /\ x.slot = d.slot) => x.h = d.h
 \* ... one duty per slot, and a committee one size
 DutyConsistent(d, D) ==
     /\ HConsistent(d, D)
-    /\ \A x \in D : (x.v = d.v /\ x.slot = d.slot /\ x.committee = d.committee) => x = d
+    /\ \A x \in D : (x.v = d.v /\ x.slot = d.slot) => x = d
     /\ \A x \in D : SamePair(x, d) => x.size = d.size
+
+\* every oracle Vouch still works with: a signature seen there is the validator's signature
+Snaps == {infoD} \cup {c.snap : c \in held}
 
 -----------------------------------------------------------------------------
 Init ==
@@ -128,6 +168,8 @@ Init ==
     /\ subAt = NoSub
     /\ nsub = 0
     /\ inflight = 0
+    /\ held = {}
+    /\ nheld = 0
     /\ nref = 0
     /\ nchg = 0
     /\ jobs = {}
@@ -140,52 +182,82 @@ AddDuty(d) ==
     /\ Cardinality(duties) < MaxDuties
     /\ d \notin duties
     /\ DutyConsistent(d, duties)
-    /\ HConsistent(d, infoD)
+    /\ \A D \in Snaps : HConsistent(d, D)
     /\ duties' = duties \cup {d}
     /\ nchg' = IF started THEN nchg + 1 ELSE nchg
-    /\ UNCHANGED <<now, target, geo, started, info, infoD, submitted, subAt, nsub, inflight, nref, jobs, attests, done>>
+    /\ UNCHANGED <<now, target, geo, started, info, infoD, submitted, subAt, nsub, inflight, held, nheld, nref, jobs, attests, done>>
 
 DropDuty(d) ==
     /\ started /\ nchg < MaxChanges
     /\ d \in duties
     /\ duties' = duties \ {d}
     /\ nchg' = nchg + 1
-    /\ UNCHANGED <<now, target, geo, started, info, infoD, submitted, subAt, nsub, inflight, nref, jobs, attests, done>>
+    /\ UNCHANGED <<now, target, geo, started, info, infoD, submitted, subAt, nsub, inflight, held, nheld, nref, jobs, attests, done>>
+
+\* The re-org leaves the validator its slot (so the slot signature and h are what they were) but
+\* puts it into another committee and / or a committee of another length.
+MoveDuty(d, e) ==
+    /\ started /\ nchg < MaxChanges
+    /\ d \in duties /\ e \notin duties
+    /\ e.v = d.v /\ e.slot = d.slot /\ e.h = d.h
+    /\ DutyConsistent(e, duties \ {d})
+    /\ duties' = (duties \ {d}) \cup {e}
+    /\ nchg' = nchg + 1
+    /\ UNCHANGED <<now, target, geo, started, info, infoD, submitted, subAt, nsub, inflight, held, nheld, nref, jobs, attests, done>>
+
+\* After the re-org committee c of slot s has z members; its validators keep slot and index.
+ResizePair(s, c, z) ==
+    /\ started /\ nchg < MaxChanges
+    /\ \E d \in DutiesAt(duties, s, c) : d.size # z
+    /\ duties' = {IF d.slot = s /\ d.committee = c THEN [d EXCEPT !.size = z] ELSE d : d \in duties}
+    /\ nchg' = nchg + 1
+    /\ UNCHANGED <<now, target, geo, started, info, infoD, submitted, subAt, nsub, inflight, held, nheld, nref, jobs, attests, done>>
 
 Advance(t) ==
     /\ t \in Nows /\ t > now
     /\ now' = t
-    /\ UNCHANGED <<target, geo, duties, started, info, infoD, submitted, subAt, nsub, inflight, nref, nchg, jobs, attests, done>>
+    /\ UNCHANGED <<target, geo, duties, started, info, infoD, submitted, subAt, nsub, inflight, held, nheld, nref, nchg, jobs, attests, done>>
 
 \* A successful Subscribe (synchronous or the completion of a re-subscription): the info is
 \* calculated from the oracle as it is now and REPLACES what the store held for the epoch.
 \* The property obliges Vouch to subscribe every future pair; whether pairs that are not in the
 \* future are sent as well is left open (S may be any set between the future part and all of I).
-StoreWith(I, S) ==
-    /\ ValidInfo(I, duties, now, target)
+\* (D = the duties the call fetched, A = the answers of the attestation aggregator for them.)
+StoreCalc(I, S, D, A) ==
+    /\ CalcInfo(I, D, now, A)
     /\ FutureOf(I, now) \subseteq S
     /\ S \subseteq I
     /\ info' = I
-    /\ infoD' = duties
+    /\ infoD' = D
     /\ submitted' = S
     /\ subAt' = now
     /\ started' = TRUE
 
-SubscribeWith(I, S) ==
+StoreWith(I, S, D) == StoreCalc(I, S, D, Exact(D, target))
+
+\* The slot-selection signer may refuse the selection call of a slot (F = the slots refused in this
+\* call): the call still succeeds, with the info of the duties whose selections it obtained - a
+\* failure of the environment that the NEXT call must not inherit.
+Signed(D, F) == {d \in D : d.slot \notin F}
+SignFails == IF SignerMayFail THEN {{}} \cup {{s} : s \in SlotSpace} ELSE {{}}
+
+SubscribeWithF(I, S, F) ==
     /\ nsub < MaxSubs
     /\ nsub' = nsub + 1
-    /\ StoreWith(I, S)
-    /\ UNCHANGED <<now, target, geo, duties, inflight, nref, nchg, jobs, attests, done>>
+    /\ StoreWith(I, S, Signed(duties, F))
+    /\ UNCHANGED <<now, target, geo, duties, inflight, held, nheld, nref, nchg, jobs, attests, done>>
+
+SubscribeWith(I, S) == SubscribeWithF(I, S, {})
 
 Subscribe ==
-    \E I \in SUBSET Entries(duties, target) : \E S \in SUBSET I : SubscribeWith(I, S)
+    \E F \in SignFails : \E I \in SUBSET Entries(Signed(duties, F), target) : \E S \in SUBSET I : SubscribeWithF(I, S, F)
 
 \* the beacon node (or the signer) fails the call: nothing is stored, the info in force stays
 SubscribeFail ==
     /\ nsub < MaxSubs
     /\ nsub' = nsub + 1
     /\ started' = TRUE
-    /\ UNCHANGED <<now, target, geo, duties, info, infoD, submitted, subAt, inflight, nref, nchg, jobs, attests, done>>
+    /\ UNCHANGED <<now, target, geo, duties, info, infoD, submitted, subAt, inflight, held, nheld, nref, nchg, jobs, attests, done>>
 
 \* A head event whose previous (current) duty dependent root differs concerns the current (next)
 \* epoch: refreshAttesterDutiesForEpoch cancels and re-makes the attestation jobs and starts a
@@ -197,21 +269,46 @@ Refresh ==
     /\ nref' = nref + 1
     /\ inflight' = inflight + 1
     /\ started' = TRUE
-    /\ UNCHANGED <<now, target, geo, duties, info, infoD, submitted, subAt, nsub, nchg, jobs, attests, done>>
+    /\ UNCHANGED <<now, target, geo, duties, info, infoD, submitted, subAt, nsub, held, nheld, nchg, jobs, attests, done>>
 
-ResubOk(I, S) ==
+ResubOkF(I, S, F) ==
     /\ inflight > 0
     /\ inflight' = inflight - 1
-    /\ StoreWith(I, S)
-    /\ UNCHANGED <<now, target, geo, duties, nsub, nref, nchg, jobs, attests, done>>
+    /\ StoreWith(I, S, Signed(duties, F))
+    /\ UNCHANGED <<now, target, geo, duties, nsub, held, nheld, nref, nchg, jobs, attests, done>>
+
+ResubOk(I, S) == ResubOkF(I, S, {})
 
 Resub ==
-    \E I \in SUBSET Entries(duties, target) : \E S \in SUBSET I : ResubOk(I, S)
+    \E F \in SignFails : \E I \in SUBSET Entries(Signed(duties, F), target) : \E S \in SUBSET I : ResubOkF(I, S, F)
 
 ResubFail ==
     /\ inflight > 0
     /\ inflight' = inflight - 1
+    /\ UNCHANGED <<now, target, geo, duties, started, info, infoD, submitted, subAt, nsub, held, nheld, nref, nchg, jobs, attests, done>>
+
+\* OVERLAP on the instances.  A re-subscription in flight fetches the duties as they are now (its
+\* snapshot) and enters the attestation aggregator; the selection call of slot hs (there is one: the
+\* snapshot has a duty in hs) is held at the slot-selection signer.  Until HeldFinish anything may
+\* happen on the same subscriber / aggregator / controller.
+ResubFetch(hs) ==
+    /\ inflight > 0 /\ nheld < MaxHeld
+    /\ \E d \in duties : d.slot = hs
+    /\ inflight' = inflight - 1
+    /\ nheld' = nheld + 1
+    /\ held' = held \cup {[id |-> nheld + 1, snap |-> duties, hs |-> hs]}
     /\ UNCHANGED <<now, target, geo, duties, started, info, infoD, submitted, subAt, nsub, nref, nchg, jobs, attests, done>>
+
+\* The held call returns: what it stores was calculated from ITS snapshot - by the rule on the
+\* committee lengths of that snapshot, whatever ran on the instances in between.
+HeldFinish(c, I, S) ==
+    /\ c \in held
+    /\ held' = held \ {c}
+    /\ StoreWith(I, S, c.snap)
+    /\ UNCHANGED <<now, target, geo, duties, nsub, inflight, nheld, nref, nchg, jobs, attests, done>>
+
+Finish ==
+    \E c \in held : \E I \in SUBSET Entries(c.snap, target) : \E S \in SUBSET I : HeldFinish(c, I, S)
 
 \* HandleHeadEvent removes the info of the epoch two before the head's: allowed (no attestation
 \* job of that epoch can be in its slot any more)
@@ -222,7 +319,7 @@ Housekeep ==
     /\ infoD' = {}
     /\ submitted' = {}
     /\ subAt' = NoSub
-    /\ UNCHANGED <<now, target, geo, duties, started, nsub, inflight, nref, nchg, jobs, attests, done>>
+    /\ UNCHANGED <<now, target, geo, duties, started, nsub, inflight, held, nheld, nref, nchg, jobs, attests, done>>
 
 \* some validator of Vouch with a duty in (s, c) of oracle D is a selected aggregator
 PairAggregatesIn(D, s, c) == \E d \in DutiesAt(D, s, c) : DutyAggregates(d, target)
@@ -248,19 +345,24 @@ AttestJob(s, C, ok) ==
                                       expect |-> subAt # NoSub /\ s >= now /\ PairAggregatesIn(infoD, s, c)] : c \in C}
                   ELSE attests
     /\ started' = TRUE
-    /\ UNCHANGED <<now, target, geo, duties, info, infoD, submitted, subAt, nsub, inflight, nref, nchg>>
+    /\ UNCHANGED <<now, target, geo, duties, info, infoD, submitted, subAt, nsub, inflight, held, nheld, nref, nchg>>
 
 DutySpace == [v : Validators, slot : SlotSpace, committee : Committees, size : Sizes, h : HVals]
 
 Next ==
     \/ \E d \in DutySpace : AddDuty(d)
     \/ \E d \in duties : DropDuty(d)
+    \/ \E d \in duties : \E c \in Committees : \E z \in Sizes :
+           MoveDuty(d, [d EXCEPT !.committee = c, !.size = z])
+    \/ \E s \in SlotSpace : \E c \in Committees : \E z \in Sizes : ResizePair(s, c, z)
     \/ \E t \in Nows : Advance(t)
     \/ Subscribe
     \/ SubscribeFail
     \/ Refresh
     \/ Resub
     \/ ResubFail
+    \/ \E hs \in SlotSpace : ResubFetch(hs)
+    \/ Finish
     \/ Housekeep
     \/ \E s \in SlotSpace : \E C \in SUBSET Committees : \E ok \in BOOLEAN : AttestJob(s, C, ok)
 
@@ -271,6 +373,8 @@ TypeOK ==
     /\ now \in Nows
     /\ target \in Targets
     /\ inflight \in 0..MaxRefresh
+    /\ nheld \in 0..MaxHeld /\ Cardinality(held) <= nheld
+    /\ \A c \in held : c.id \in 1..nheld /\ \E d \in c.snap : d.slot = c.hs
     /\ \A d \in duties : d.h \in 0..(HMod - 1) /\ d.size >= 1 /\ EpochOf(d.slot) = geo.ep
     /\ \A tgt \in Targets : \A z \in Sizes : HMod % Modulus(z, tgt) = 0
 
@@ -286,6 +390,12 @@ AggregatorRuleExact ==
     /\ \A e \in submitted \cup info :
           \E d \in DutiesAt(infoD, e.slot, e.committee) : d.v = e.v /\ e.agg = DutyAggregates(d, target)
     /\ \A j \in jobs : j.exact
+
+\* C14 over HISTORIES: whatever calls ran before or beside it on the same instances, the info in
+\* force is a valid info of the duties its own call fetched - flags by the rule on the committee
+\* lengths of THAT fetch.  (The store itself is the only state that persists by the property.)
+SubscriptionHistoryIndependent ==
+    subAt # NoSub => ValidInfo(info, infoD, subAt, target)
 
 \* a pair that has a selected aggregator is stored as aggregating
 InfoPrefersAggregator ==
